@@ -1,8 +1,11 @@
 /-
-  On every pattern of the agreed fragment (`Spec.tokenize p = some toks`) the engine's matcher
-  over characters computes the textbook glob semantics: `Code.globChars p t = Spec.matchToks toks t`.
+  For EVERY pattern and every text the engine's matcher over characters computes the textbook
+  glob semantics of the tokenised pattern: `Code.globChars p t = Spec.matchToks (Spec.tokenize p) t`
+  (`globChars_eq_matchToks`; plain `List Nat` on both sides, so it serves every caller of
+  `pattern_matches`: SCAN/HSCAN/SSCAN/ZSCAN MATCH, KEYS, PSUBSCRIBE).
 
-  Step 1: the class body as the code reads it (`classMatch`) is the item list the tokenizer builds.
+  Step 1: the class walk of the code (`classWalk`) and the class states of the tokenizer read the
+          same members.
   Step 2: one pass of the engine's `match` (`globStep`) is one pass over the token list (`tokStep`).
   Step 3: the loops agree (`globLoop = tokLoop`), and `tokLoop` is correct (ScanGlobTok.lean).
 -/
@@ -13,367 +16,268 @@ open Code Spec
 
 /-! ### Step 1: classes -/
 
-/-- The items of a class body as `classMatch` reads them. -/
-def itemsOf : List Nat → List (Nat × Nat)
-  | [] => []
-  | x :: rest@(d :: hi :: rest') => if d = 45 then (x, hi) :: itemsOf rest' else (x, x) :: itemsOf rest
-  | x :: rest => (x, x) :: itemsOf rest
-
 def inItems (c : Nat) (its : List (Nat × Nat)) : Bool := its.any (fun it => it.1 ≤ c && c ≤ it.2)
 
 theorem tokAccepts_cls (neg : Bool) (its : List (Nat × Nat)) (c : Nat) :
     tokAccepts (.cls neg its) c = (inItems c its != neg) := rfl
 
-theorem itemsOf_one (x : Nat) : itemsOf [x] = [(x, x)] := by simp [itemsOf]
-theorem itemsOf_two (x y : Nat) : itemsOf [x, y] = [(x, x), (y, y)] := by simp [itemsOf]
-theorem itemsOf_range (x hi : Nat) (r : List Nat) : itemsOf (x :: 45 :: hi :: r) = (x, hi) :: itemsOf r := by
-  simp [itemsOf]
-theorem itemsOf_single (x d : Nat) (r : List Nat) (hd : d ≠ 45) : itemsOf (x :: d :: r) = (x, x) :: itemsOf (d :: r) := by
-  cases r with
-  | nil => simp [itemsOf]
-  | cons hi r' => simp [itemsOf, hd]
-
-theorem point_range (x c : Nat) : (decide (x ≤ c) && decide (c ≤ x)) = decide (c = x) := by
+theorem point_range (x c : Nat) : (decide (x ≤ c) && decide (c ≤ x)) = (x == c) := by
   rw [Bool.eq_iff_iff]
-  simp only [Bool.and_eq_true, decide_eq_true_eq]
+  simp only [Bool.and_eq_true, decide_eq_true_eq, beq_iff_eq]
   omega
 
-theorem ite_true_or (P : Prop) [Decidable P] (b : Bool) : (if P then true else b) = (decide P || b) := by
-  by_cases h : P <;> simp [h]
+theorem inItems_append (c : Nat) (a b : List (Nat × Nat)) : inItems c (a ++ b) = (inItems c a || inItems c b) := by
+  simp [inItems, List.any_append]
 
-theorem ite_range_or (P : Prop) [Decidable P] (b : Bool) : (if P then true else b) = (decide P || b) :=
-  ite_true_or P b
+theorem inItems_single (c lo hi : Nat) : inItems c [(lo, hi)] = (decide (lo ≤ c) && decide (c ≤ hi)) := by
+  simp [inItems]
 
-theorem classMatch_nil (c : Nat) : classMatch c [] = false := rfl
-
-theorem classMatch_one (c x : Nat) : classMatch c [x] = if c = x then true else false := by
-  simp [classMatch, classMatchAux]
-
-theorem classMatch_range (c x hi : Nat) (r : List Nat) :
-    classMatch c (x :: 45 :: hi :: r) = if x ≤ c ∧ c ≤ hi then true else classMatch c r := by
-  simp [classMatch, classMatchAux]
-
-theorem classMatch_single (c x d : Nat) (r : List Nat) (hd : d ≠ 45) :
-    classMatch c (x :: d :: r) = if c = x then true else classMatch c (d :: r) := by
-  simp [classMatch, classMatchAux, hd]
-
-theorem classMatch_two (c x y : Nat) : classMatch c [x, y] = if c = x then true else classMatch c [y] := by
-  simp [classMatch, classMatchAux]
-
-theorem classMatch_eq (c : Nat) : ∀ (n : Nat) (body : List Nat), body.length ≤ n →
-    classMatch c body = inItems c (itemsOf body)
-  | _, [], _ => by simp [classMatch_nil, itemsOf, inItems]
-  | 0, _ :: _, h => by simp at h
-  | n + 1, [x], _ => by
-    simp only [classMatch_one, itemsOf_one, inItems, List.any_cons, List.any_nil, Bool.or_false, ite_true_or,
-      point_range]
-  | n + 1, [x, y], _ => by
-    simp only [classMatch_two, classMatch_one, itemsOf_two, inItems, List.any_cons, List.any_nil, Bool.or_false,
-      ite_true_or, point_range]
-  | n + 1, x :: d :: hi :: r, h => by
-    simp only [List.length_cons] at h
-    by_cases hd : d = 45
-    · subst hd
-      rw [itemsOf_range, classMatch_range]
-      have ih := classMatch_eq c n r (by omega)
-      simp only [inItems, List.any_cons, ite_true_or] at ih ⊢
-      rw [ih]
-      simp [Bool.decide_and]
-    · rw [itemsOf_single x d (hi :: r) hd, classMatch_single c x d (hi :: r) hd]
-      have ih := classMatch_eq c n (d :: hi :: r) (by simp only [List.length_cons]; omega)
-      simp only [inItems, List.any_cons, ite_true_or, point_range] at ih ⊢
-      rw [ih]
-
-theorem classMatch_items (c : Nat) (body : List Nat) : classMatch c body = inItems c (itemsOf body) :=
-  classMatch_eq c body.length body (Nat.le_refl _)
-
-theorem splitClose_cons_ne {x : Nat} (hx : x ≠ 93) {r body rest : List Nat} (h : splitClose r = some (body, rest)) :
-    splitClose (x :: r) = some (x :: body, rest) := by
-  simp [splitClose, hx, h]
-
-/-- What the three in-class states of the tokenizer produce, in terms of the raw class body. -/
-theorem cls_states : ∀ q : List Nat,
-    (∀ neg acc toks, tokenizeAux (.cls false neg acc) q = some toks →
-      ∃ body rest toks', splitClose q = some (body, rest) ∧ tokenizeAux .out rest = some toks' ∧
-        toks = .cls neg (acc.reverse ++ itemsOf body) :: toks') ∧
-    (∀ neg acc lo toks, tokenizeAux (.clsLo neg acc lo) q = some toks →
-      ∃ body rest toks', splitClose q = some (body, rest) ∧ tokenizeAux .out rest = some toks' ∧
-        toks = .cls neg (acc.reverse ++ itemsOf (lo :: body)) :: toks') ∧
-    (∀ neg acc lo toks, tokenizeAux (.clsDash neg acc lo) q = some toks →
-      ∃ body rest toks', splitClose q = some (body, rest) ∧ tokenizeAux .out rest = some toks' ∧
-        toks = .cls neg (acc.reverse ++ itemsOf (lo :: 45 :: body)) :: toks')
+/-- From each of the four in-class states the tokenizer and the code's walk read the same members
+    and stop at the same place: the token is the class of the members collected so far followed
+    by `items`, the walk reports `matched` iff it was already set or `c` is in `items`. -/
+theorem cls_walk : ∀ l : List Nat,
+    (∀ neg acc, ∃ items rest,
+      tokenizeAux (.cls false neg acc) l = Tok.cls neg (acc.reverse ++ items) :: tokenizeAux .out rest ∧
+      ∀ c m, classWalk c .member m l = (m || inItems c items, rest)) ∧
+    (∀ neg acc, ∃ items rest,
+      tokenizeAux (.clsEsc neg acc) l = Tok.cls neg (acc.reverse ++ items) :: tokenizeAux .out rest ∧
+      ∀ c m, classWalk c .esc m l = (m || inItems c items, rest)) ∧
+    (∀ neg acc lo, ∃ items rest,
+      tokenizeAux (.clsDash neg acc lo) l = Tok.cls neg (acc.reverse ++ items) :: tokenizeAux .out rest ∧
+      ∀ c m, classWalk c (.dash lo) m l = (m || inItems c items, rest)) ∧
+    (∀ neg acc lo, ∃ items rest,
+      tokenizeAux (.clsHi neg acc lo) l = Tok.cls neg (acc.reverse ++ items) :: tokenizeAux .out rest ∧
+      ∀ c m, classWalk c (.hi lo) m l = (m || inItems c items, rest))
   | [] => by
-    refine ⟨?_, ?_, ?_⟩ <;> intros <;> simp_all [tokenizeAux]
+    refine ⟨?_, ?_, ?_, ?_⟩ <;> intros <;>
+      exact ⟨[], [], by simp [tokenizeAux], by intro c m; simp [classWalk, inItems]⟩
   | x :: r => by
-    obtain ⟨ih1, ih2, ih3⟩ := cls_states r
-    refine ⟨?_, ?_, ?_⟩
-    · intro neg acc toks h
-      simp only [tokenizeAux, Bool.false_eq_true, false_and, if_false] at h
-      by_cases h93 : x = 93
-      · subst h93
-        simp only [if_true, Option.map_eq_some_iff] at h
-        obtain ⟨toks', h1, h2⟩ := h
-        exact ⟨[], r, toks', by simp [splitClose], h1, by simp [itemsOf, ← h2]⟩
-      · simp only [h93, if_false] at h
-        by_cases h92 : x = 92
-        · simp [h92] at h
-        · simp only [h92, if_false] at h
-          obtain ⟨body, rest, toks', hs, ht, he⟩ := ih2 neg acc x toks h
-          exact ⟨x :: body, rest, toks', splitClose_cons_ne h93 hs, ht, he⟩
-    · intro neg acc lo toks h
-      simp only [tokenizeAux] at h
-      by_cases h45 : x = 45
-      · subst h45
-        simp only [if_true] at h
-        obtain ⟨body, rest, toks', hs, ht, he⟩ := ih3 neg acc lo toks h
-        exact ⟨45 :: body, rest, toks', splitClose_cons_ne (by decide) hs, ht, he⟩
-      · simp only [h45, if_false] at h
-        by_cases h93 : x = 93
+    obtain ⟨ih1, ih2, ih3, ih4⟩ := cls_walk r
+    refine ⟨?_, ?_, ?_, ?_⟩
+    · intro neg acc
+      by_cases hesc : x = 92 ∧ r ≠ []
+      · obtain ⟨items, rest, ht, hw⟩ := ih2 neg acc
+        refine ⟨items, rest, ?_, ?_⟩
+        · simp only [tokenizeAux, Bool.false_eq_true, false_and, if_false]
+          rw [if_pos hesc]
+          exact ht
+        · intro c m
+          simp only [classWalk]
+          rw [if_pos hesc]
+          exact hw c m
+      · by_cases h93 : x = 93
         · subst h93
-          simp only [if_true, Option.map_eq_some_iff] at h
-          obtain ⟨toks', h1, h2⟩ := h
-          exact ⟨[], r, toks', by simp [splitClose], h1, by simp [itemsOf_one, ← h2]⟩
-        · simp only [h93, if_false] at h
-          by_cases h92 : x = 92
-          · simp [h92] at h
-          · simp only [h92, if_false] at h
-            obtain ⟨body, rest, toks', hs, ht, he⟩ := ih2 neg ((lo, lo) :: acc) x toks h
-            refine ⟨x :: body, rest, toks', splitClose_cons_ne h93 hs, ht, ?_⟩
-            rw [he, itemsOf_single lo x body h45]
-            simp
-    · intro neg acc lo toks h
-      simp only [tokenizeAux] at h
-      by_cases hbad : x = 93 ∨ x = 92 ∨ x < lo
-      · simp [hbad] at h
-      · simp only [hbad, if_false] at h
-        obtain ⟨body, rest, toks', hs, ht, he⟩ := ih1 neg ((lo, x) :: acc) toks h
-        have h93 : x ≠ 93 := fun h => hbad (Or.inl h)
-        refine ⟨x :: body, rest, toks', splitClose_cons_ne h93 hs, ht, ?_⟩
-        rw [he, itemsOf_range]
+          refine ⟨[], r, ?_, ?_⟩
+          · simp [tokenizeAux]
+          · intro c m
+            simp [classWalk, inItems]
+        · by_cases hrange : 2 ≤ r.length ∧ r.head? = some 45
+          · obtain ⟨items, rest, ht, hw⟩ := ih3 neg acc x
+            refine ⟨items, rest, ?_, ?_⟩
+            · simp only [tokenizeAux, Bool.false_eq_true, false_and, if_false]
+              rw [if_neg hesc, if_neg h93, if_pos hrange]
+              exact ht
+            · intro c m
+              simp only [classWalk]
+              rw [if_neg hesc, if_neg h93, if_pos hrange]
+              exact hw c m
+          · obtain ⟨items, rest, ht, hw⟩ := ih1 neg ((x, x) :: acc)
+            refine ⟨(x, x) :: items, rest, ?_, ?_⟩
+            · simp only [tokenizeAux, Bool.false_eq_true, false_and, if_false]
+              rw [if_neg hesc, if_neg h93, if_neg hrange, ht]
+              simp
+            · intro c m
+              simp only [classWalk]
+              rw [if_neg hesc, if_neg h93, if_neg hrange, hw c (m || x == c)]
+              simp [inItems, point_range, Bool.or_assoc]
+    · intro neg acc
+      obtain ⟨items, rest, ht, hw⟩ := ih1 neg ((x, x) :: acc)
+      refine ⟨(x, x) :: items, rest, ?_, ?_⟩
+      · simp only [tokenizeAux]
+        rw [ht]
         simp
+      · intro c m
+        simp only [classWalk]
+        rw [hw c (m || x == c)]
+        simp [inItems, point_range, Bool.or_assoc]
+    · intro neg acc lo
+      obtain ⟨items, rest, ht, hw⟩ := ih4 neg acc lo
+      refine ⟨items, rest, ?_, ?_⟩
+      · simp only [tokenizeAux]; exact ht
+      · intro c m
+        simp only [classWalk]; exact hw c m
+    · intro neg acc lo
+      obtain ⟨items, rest, ht, hw⟩ := ih1 neg ((min lo x, max lo x) :: acc)
+      refine ⟨(min lo x, max lo x) :: items, rest, ?_, ?_⟩
+      · simp only [tokenizeAux]
+        rw [ht]
+        simp
+      · intro c m
+        simp only [classWalk]
+        rw [hw c (m || (decide (min lo x ≤ c) && decide (c ≤ max lo x)))]
+        simp [inItems, Bool.or_assoc]
 
-/-- The state right after `[`. -/
-theorem cls_start (q : List Nat) (toks : List Tok) (h : tokenizeAux (.cls true false []) q = some toks) :
-    ∃ body rest toks', splitClose q = some (body, rest) ∧ tokenizeAux .out rest = some toks' ∧
-      toks = .cls (body.head? == some 94) (itemsOf (if (body.head? == some 94) = true then body.tail else body)) :: toks' := by
+/-- Right after `[`: the `^` negates, then the walk. -/
+theorem cls_start (q : List Nat) :
+    ∃ items rest,
+      tokenizeAux (.cls true false []) q = Tok.cls (q.head? == some 94) items :: tokenizeAux .out rest ∧
+      ∀ c, classWalk c .member false (if (q.head? == some 94) = true then q.tail else q) = (inItems c items, rest) := by
   cases q with
-  | nil => simp [tokenizeAux] at h
+  | nil =>
+    exact ⟨[], [], by simp [tokenizeAux], by intro c; simp [classWalk, inItems]⟩
   | cons x r =>
-    obtain ⟨ih1, ih2, _⟩ := cls_states r
-    simp only [tokenizeAux, true_and] at h
     by_cases h94 : x = 94
     · subst h94
-      simp only [if_true] at h
-      obtain ⟨body, rest, toks', hs, ht, he⟩ := ih1 true [] toks h
-      exact ⟨94 :: body, rest, toks', splitClose_cons_ne (by decide) hs, ht, by simp [he]⟩
-    · simp only [h94, if_false] at h
-      by_cases h93 : x = 93
-      · subst h93
-        simp only [if_true, Option.map_eq_some_iff] at h
-        obtain ⟨toks', h1, h2⟩ := h
-        exact ⟨[], r, toks', by simp [splitClose], h1, by simp [itemsOf, ← h2]⟩
-      · simp only [h93, if_false] at h
-        by_cases h92 : x = 92
-        · simp [h92] at h
-        · simp only [h92, if_false] at h
-          obtain ⟨body, rest, toks', hs, ht, he⟩ := ih2 false [] x toks h
-          refine ⟨x :: body, rest, toks', splitClose_cons_ne h93 hs, ht, ?_⟩
-          have : ((x :: body).head? == some 94) = false := by simp [h94]
-          rw [this]
-          simp [he]
+      obtain ⟨items, rest, ht, hw⟩ := (cls_walk r).1 true []
+      refine ⟨items, rest, ?_, ?_⟩
+      · simp only [tokenizeAux, true_and, if_true, List.head?_cons, beq_self_eq_true]
+        simpa using ht
+      · intro c
+        simp only [List.head?_cons, beq_self_eq_true, if_true, List.tail_cons]
+        simpa using hw c false
+    · obtain ⟨items, rest, ht, hw⟩ := (cls_walk (x :: r)).1 false []
+      have hhead : ((x :: r).head? == some 94) = false := by simp [h94]
+      refine ⟨items, rest, ?_, ?_⟩
+      · rw [hhead]
+        have : tokenizeAux (.cls true false []) (x :: r) = tokenizeAux (.cls false false []) (x :: r) := by
+          simp only [tokenizeAux, true_and, h94, if_false, Bool.false_eq_true, false_and]
+        rw [this]
+        simpa using ht
+      · intro c
+        rw [hhead]
+        simpa using hw c false
 
 /-! ### Step 2: one pass -/
 
-theorem classStep_eq {r body rest : List Nat} (hs : splitClose r = some (body, rest)) (c : Nat) :
-    classStep r c =
-      if (inItems c (itemsOf (if (body.head? == some 94) = true then body.tail else body)) != (body.head? == some 94)) = true
-      then .adv rest else .fail := by
-  unfold classStep
-  rw [hs]
-  dsimp only
-  rw [classMatch_items]
+/-- The outcome of a pass of the code, with the remaining pattern tokenised. -/
+def stepToks : GStep → TStep
+  | .adv p' => .adv (tokenize p')
+  | .star p' => .star (tokenize p')
+  | .fail => .fail
 
 theorem tokStep_single {tk : Tok} (h : isStar tk = false) (r : List Tok) (c : Nat) :
     tokStep (tk :: r) c = if tokAccepts tk c then .adv r else .fail := by
   simp [tokStep, h]
 
-theorem step_sim {p : List Nat} {toks : List Tok} (h : tokenize p = some toks) (c : Nat) :
-    (∃ r p', tokStep toks c = .adv r ∧ globStep p c = .adv p' ∧ tokenize p' = some r) ∨
-    (∃ r p', tokStep toks c = .star r ∧ globStep p c = .star p' ∧ tokenize p' = some r) ∨
-    (tokStep toks c = .fail ∧ globStep p c = .fail) := by
-  unfold tokenize at h
+theorem step_sim (p : List Nat) (c : Nat) : tokStep (tokenize p) c = stepToks (globStep p c) := by
+  unfold tokenize
   cases p with
-  | nil =>
-    simp only [tokenizeAux, Option.some.injEq] at h
-    subst h
-    right; right
-    simp [tokStep, globStep]
+  | nil => simp [tokenizeAux, tokStep, globStep, stepToks]
   | cons x r =>
-    simp only [tokenizeAux] at h
     by_cases h42 : x = 42
     · subst h42
-      simp only [if_true, Option.map_eq_some_iff] at h
-      obtain ⟨toks', h1, h2⟩ := h
-      subst h2
-      right; left
-      exact ⟨toks', r, by simp [tokStep, isStar], by simp [globStep], h1⟩
-    · simp only [h42, if_false] at h
-      by_cases h63 : x = 63
+      simp [tokenizeAux, tokStep, isStar, globStep, stepToks, tokenize]
+    · by_cases h63 : x = 63
       · subst h63
-        simp only [if_true, Option.map_eq_some_iff] at h
-        obtain ⟨toks', h1, h2⟩ := h
-        subst h2
-        left
-        exact ⟨toks', r, by simp [tokStep, isStar, tokAccepts], by simp [globStep], h1⟩
-      · simp only [h63, if_false] at h
-        by_cases h92 : x = 92
+        simp [tokenizeAux, tokStep, isStar, tokAccepts, globStep, stepToks, tokenize]
+      · by_cases h92 : x = 92
         · subst h92
-          simp only [if_true] at h
           cases r with
           | nil =>
-            simp only [tokenizeAux, Option.some.injEq] at h
-            subst h
             by_cases hc : 92 = c
             · subst hc
-              left
-              exact ⟨[], [], by simp [tokStep, isStar, tokAccepts], by simp [globStep], by simp [tokenize, tokenizeAux]⟩
-            · right; right
-              exact ⟨by simp [tokStep, isStar, tokAccepts, hc], by simp [globStep, hc]⟩
+              simp [tokenizeAux, tokStep, isStar, tokAccepts, globStep, stepToks, tokenize]
+            · simp [tokenizeAux, tokStep, isStar, tokAccepts, globStep, stepToks, hc]
           | cons y r' =>
-            simp only [tokenizeAux, Option.map_eq_some_iff] at h
-            obtain ⟨toks', h1, h2⟩ := h
-            subst h2
             by_cases hc : y = c
             · subst hc
-              left
-              exact ⟨toks', r', by simp [tokStep, isStar, tokAccepts], by simp [globStep], h1⟩
-            · right; right
-              exact ⟨by simp [tokStep, isStar, tokAccepts, hc], by simp [globStep, hc]⟩
-        · simp only [h92, if_false] at h
-          by_cases h91 : x = 91
+              simp [tokenizeAux, tokStep, isStar, tokAccepts, globStep, stepToks, tokenize]
+            · simp [tokenizeAux, tokStep, isStar, tokAccepts, globStep, stepToks, hc]
+        · by_cases h91 : x = 91
           · subst h91
-            simp only [if_true] at h
-            obtain ⟨body, rest, toks', hs, ht, he⟩ := cls_start r toks h
-            subst he
+            obtain ⟨items, rest, ht, hw⟩ := cls_start r
             have hstep : globStep (91 :: r) c = classStep r c := by simp [globStep]
-            rw [hstep, classStep_eq hs, tokStep_single (by rfl), tokAccepts_cls]
-            by_cases hacc : (inItems c (itemsOf (if (body.head? == some 94) = true then body.tail else body)) != (body.head? == some 94)) = true
-            · left
-              exact ⟨toks', rest, by rw [if_pos hacc], by rw [if_pos hacc], ht⟩
-            · right; right
-              exact ⟨by rw [if_neg hacc], by rw [if_neg hacc]⟩
-          · simp only [h91, if_false, Option.map_eq_some_iff] at h
-            obtain ⟨toks', h1, h2⟩ := h
-            subst h2
+            have htok : tokenizeAux .out (91 :: r) = tokenizeAux (.cls true false []) r := by
+              simp [tokenizeAux]
+            rw [hstep, htok, ht, tokStep_single (by rfl), tokAccepts_cls]
+            unfold classStep
+            dsimp only
+            rw [hw c]
+            by_cases hacc : (inItems c items != (r.head? == some 94)) = true
+            · rw [if_pos hacc, if_pos hacc]; rfl
+            · rw [if_neg hacc, if_neg hacc]; rfl
+          · have htok : tokenizeAux .out (x :: r) = Tok.lit x :: tokenizeAux .out r := by
+              simp [tokenizeAux, h42, h63, h92, h91]
+            rw [htok, tokStep_single (by rfl)]
             by_cases hc : x = c
             · subst hc
-              left
-              exact ⟨toks', r, by simp [tokStep, isStar, tokAccepts], by simp [globStep, h42, h63, h92, h91], h1⟩
-            · right; right
-              exact ⟨by simp [tokStep, isStar, tokAccepts, hc], by simp [globStep, h42, h63, h92, h91, hc]⟩
+              simp [tokAccepts, globStep, h42, h63, h92, h91, stepToks, tokenize]
+            · simp [tokAccepts, globStep, h42, h63, h92, h91, stepToks, hc]
+
+/-- The first token of a pattern that does not begin with `*` is not a star. -/
+theorem head_not_star {x : Nat} (h42 : x ≠ 42) (r : List Nat) :
+    ∃ tk tl, tokenize (x :: r) = tk :: tl ∧ isStar tk = false := by
+  unfold tokenize
+  by_cases h63 : x = 63
+  · subst h63; exact ⟨.any, tokenizeAux .out r, by simp [tokenizeAux], rfl⟩
+  · by_cases h92 : x = 92
+    · subst h92
+      cases r with
+      | nil => exact ⟨.lit 92, [], by simp [tokenizeAux], rfl⟩
+      | cons y r' => exact ⟨.lit y, tokenizeAux .out r', by simp [tokenizeAux], rfl⟩
+    · by_cases h91 : x = 91
+      · subst h91
+        obtain ⟨items, rest, ht, _⟩ := cls_start r
+        exact ⟨_, _, by simp only [tokenizeAux]; simpa using ht, rfl⟩
+      · exact ⟨.lit x, tokenizeAux .out r, by simp [tokenizeAux, h42, h63, h92, h91], rfl⟩
 
 /-- After the text: the trailing-`*` loop accepts iff only stars are left. -/
-theorem end_sim : ∀ {p : List Nat} {toks : List Tok}, tokenize p = some toks →
-    (p.dropWhile (· == 42)).isEmpty = toks.all isStar
-  | [], toks, h => by
-    simp only [tokenize, tokenizeAux, Option.some.injEq] at h
-    subst h
-    simp
-  | x :: r, toks, h => by
+theorem end_sim : ∀ (p : List Nat), (p.dropWhile (· == 42)).isEmpty = (tokenize p).all isStar
+  | [] => by simp [tokenize, tokenizeAux]
+  | x :: r => by
     by_cases h42 : x = 42
     · subst h42
-      have h' := h
-      simp only [tokenize, tokenizeAux, if_true, Option.map_eq_some_iff] at h'
-      obtain ⟨toks', h1, h2⟩ := h'
-      subst h2
-      have := end_sim (p := r) (toks := toks') h1
-      simp [List.dropWhile, isStar, this]
-    · -- the first token is not a star, whatever the first character is
+      have := end_sim r
+      simp only [tokenize] at this ⊢
+      simp [tokenizeAux, List.dropWhile, isStar, this]
+    · obtain ⟨tk, tl, ht, hst⟩ := head_not_star h42 r
       have hne : (x == 42) = false := by simp [h42]
-      simp only [List.dropWhile, hne, List.isEmpty_cons]
-      -- take one step with any character to see the head token
-      rcases step_sim h 0 with ⟨r', p', hs, hg, _⟩ | ⟨r', p', hs, hg, _⟩ | ⟨hs, hg⟩
-      · cases toks with
-        | nil => simp [tokStep] at hs
-        | cons tk tl =>
-          simp only [tokStep] at hs
-          cases hst : isStar tk with
-          | true => simp [hst] at hs
-          | false => simp [hst]
-      · -- a star step of the code needs x = 42
-        have := globStep_star_length hg
-        simp only [globStep, h42, if_false] at hg
-        split at hg
-        · simp at hg
-        · split at hg
-          · exact absurd hg classStep_ne_star
-          · split at hg
-            · split at hg <;> split at hg <;> simp at hg
-            · split at hg <;> simp at hg
-      · cases toks with
-        | nil =>
-          simp only [tokenize, tokenizeAux, h42, if_false] at h
-          split at h
-          · simp at h
-          · split at h
-            · cases r <;> simp [tokenizeAux] at h
-            · split at h
-              · obtain ⟨_, _, _, _, _, he⟩ := cls_start r [] h
-                simp at he
-              · simp at h
-        | cons tk tl =>
-          simp only [tokStep] at hs
-          cases hst : isStar tk with
-          | true => simp [hst] at hs
-          | false => simp [hst]
+      rw [ht]
+      simp [List.dropWhile, hne, hst]
 
 /-! ### Step 3: the loops -/
 
-/-- The saved stars correspond. -/
-def StarRel : Option (List Nat × List Nat) → Option (List Tok × List Nat) → Prop
-  | none, none => True
-  | some (ps, ts), some (pst, ts') => ts = ts' ∧ tokenize ps = some pst
-  | _, _ => False
+def starToks (s : Option (List Nat × List Nat)) : Option (List Tok × List Nat) :=
+  s.map (fun st => (tokenize st.1, st.2))
 
-theorem loop_sim : ∀ (f : Nat) (p : List Nat) (toks : List Tok) (t : List Nat)
-    (star : Option (List Nat × List Nat)) (star' : Option (List Tok × List Nat)),
-    tokenize p = some toks → StarRel star star' → globLoop f p t star = tokLoop f toks t star'
-  | 0, _, _, _, _, _, _, _ => by simp [globLoop, tokLoop]
-  | f + 1, p, toks, [], _, _, h, _ => by simp [globLoop, tokLoop, end_sim h]
-  | f + 1, p, toks, c :: t, star, star', h, hs => by
+theorem loop_sim : ∀ (f : Nat) (p t : List Nat) (star : Option (List Nat × List Nat)),
+    globLoop f p t star = tokLoop f (tokenize p) t (starToks star)
+  | 0, _, _, _ => by simp [globLoop, tokLoop]
+  | f + 1, p, [], _ => by simp [globLoop, tokLoop, end_sim p]
+  | f + 1, p, c :: t, star => by
     rw [globLoop_cons]
     simp only [tokLoop]
-    rcases step_sim h c with ⟨r, p', h1, h2, h3⟩ | ⟨r, p', h1, h2, h3⟩ | ⟨h1, h2⟩
-    · rw [h1, h2]
-      exact loop_sim f p' r t star star' h3 hs
-    · rw [h1, h2]
-      exact loop_sim f p' r (c :: t) _ _ h3 ⟨rfl, h3⟩
-    · rw [h1, h2]
+    rw [step_sim p c]
+    cases hgs : globStep p c with
+    | adv p' =>
+      simp only [stepToks]
+      exact loop_sim f p' t star
+    | star p' =>
+      simp only [stepToks]
+      exact loop_sim f p' (c :: t) (some (p', c :: t))
+    | fail =>
+      simp only [stepToks]
       cases star with
-      | none =>
-        cases star' with
-        | none => rfl
-        | some st' => simp [StarRel] at hs
+      | none => rfl
       | some st =>
-        cases star' with
-        | none => simp [StarRel] at hs
-        | some st' =>
-          obtain ⟨ps, ts⟩ := st
-          obtain ⟨pst, ts'⟩ := st'
-          obtain ⟨rfl, hps⟩ := hs
-          exact loop_sim f ps pst ts.tail _ _ hps ⟨rfl, hps⟩
+        obtain ⟨ps, ts⟩ := st
+        simp only [starToks, Option.map_some]
+        exact loop_sim f ps ts.tail (some (ps, ts.tail))
 
-/-- **The engine's matcher computes glob semantics on the agreed fragment**, for every pattern
-    (classes, negated classes, ranges, escapes, any number of `*`) and every text. -/
-theorem globChars_eq_matchToks (p t : List Nat) (toks : List Tok) (h : tokenize p = some toks) :
-    globChars p t = matchToks toks t := by
+/-- **The engine's matcher computes glob semantics — for every pattern and every text.**
+    `p`, `t` are plain lists of symbols (bytes, or code points): classes, negated classes,
+    ranges (ordered bounds), escapes inside and outside classes, unterminated classes, any
+    number of `*`. -/
+theorem globChars_eq_matchToks (p t : List Nat) : globChars p t = matchToks (tokenize p) t := by
   have hs := globLoop_fuel_enough p t
   cases hr : globLoop (globFuel p t) p t none with
   | none => simp [hr] at hs
   | some b =>
     have h1 : globChars p t = b := by simp [globChars, hr]
-    have h2 : tokLoop (globFuel p t) toks t none = some b := by
-      rw [← loop_sim (globFuel p t) p toks t none none h trivial]; exact hr
+    have h2 : tokLoop (globFuel p t) (tokenize p) t none = some b := by
+      have := loop_sim (globFuel p t) p t none
+      simp only [starToks, Option.map_none] at this
+      rw [← this]; exact hr
     rw [h1, tokLoop_matchToks h2]
 
 end Ferrous.Scan
